@@ -145,15 +145,15 @@ pub fn scenarios(tier: Tier) -> Vec<Scenario> {
                     for extra in 1..=2usize {
                         for np in 1..=2u32 {
                             for via in [false, true] {
-                                add(pol, cap, cap + extra, np, via, true, 3);
-                                if cap <= 2 {
-                                    add(pol, cap, cap + extra, np, via, false, 3);
-                                }
+                                add(pol, cap, cap + extra, np, via, true, 4);
+                                add(pol, cap, cap + extra, np, via, false, if np == 1 { 4 } else { 3 });
                             }
                         }
                     }
                 }
-                add(pol, 1, 3, 3, true, false, 2);
+                add(pol, 1, 3, 3, true, false, 3);
+                add(pol, 2, 6, 3, false, false, 2);
+                add(pol, 2, 4, 2, true, false, 4);
             }
         }
     }
